@@ -158,7 +158,9 @@ func CheckStreams(c *Ctx, t *Tun, v *TunVerdict, oracle string, wantComplete boo
 			failf(c, oracle, sig("host-stream-incomplete"), "%s/%s: after the drain the host has %d of %d bytes of the client's declared payloads (sent=%s)", p.Name, p.Transport, len(hostGot), len(v.ExpectHost), planString(p, len(cl.Sent)))
 			return sv
 		}
-		if len(clientGot) != len(hostSent) {
+		// (a client that ended its request body ended the tunnel: what the host still had to
+		// say need not arrive)
+		if len(clientGot) != len(hostSent) && p.EndBody == 0 {
 			failf(c, oracle, sig("client-stream-incomplete"), "%s/%s: after the drain the client has %d of the %d bytes the host produced", p.Name, p.Transport, len(clientGot), len(hostSent))
 			return sv
 		}
@@ -353,6 +355,17 @@ func runC07(c *Ctx) {
 	}
 	var ds []string
 	ds = append(ds, fmt.Sprintf("id-format=%d", idf))
+	if c.T.Bool(1, 3) {
+		// one user, signed in once (one access token), connects to two different hosts from
+		// the same machine: two tunnels, each bound to the host of its own token
+		i := c.T.Choose(n)
+		j := (i + 1 + c.T.Choose(n-1)) % n
+		a, b := tw.Plans[i], tw.Plans[j]
+		b.User, b.AccessToken = a.User, a.AccessToken
+		b.From = fmt.Sprintf("%s:%d", clientIP(a.From), 45000+j)
+		ds = append(ds, fmt.Sprintf("%s and %s belong to one user", a.Name, b.Name))
+		c.S.Count("probe.one_user_two_hosts")
+	}
 	for _, p := range tw.Plans {
 		ds = append(ds, buildStreamPlan(c, tw, p, c.T.Choose(5), c.T.Choose(5), 3000, 6000, false))
 		if c.T.Bool(1, 5) {
